@@ -2,10 +2,14 @@
 package c12
 
 import (
+	"fmt"
+	"strings"
 	"testing"
 
 	"pgregory.net/rapid"
 
+	"verif/harness/kf"
+	"verif/harness/kit"
 	"verif/harness/rec"
 	"verif/harness/sim/aggsim"
 )
@@ -21,4 +25,93 @@ const rule = "rapid state machine on a fresh kit chain per case: register-coin (
 func TestC12_Registry(t *testing.T) {
 	r := rec.For("TestC12_Registry", rule)
 	rapid.Check(t, func(t *rapid.T) { aggsim.RunRegistry(t, r) })
+}
+
+// ---------------------------------------------------------------------------------------------
+// pinned reproductions (no generator): each passes silently when the behaviour no longer reproduces,
+// prints KNOWN-FINDING when it reproduces and is listed, fails when it reproduces and is not listed.
+
+func pinned(t *testing.T, test, key, what string, run func(w *aggsim.World) []string) {
+	r := rec.For(test, "pinned: "+what)
+	w := aggsim.NewWorld()
+	steps := run(w)
+	ctx := w.C.Ctx()
+	reg := w.ReadRegistry(ctx)
+	bad := append(reg.Check(), w.CheckLookups(ctx, reg)...)
+	r.Case(test+"/history", true, func() interface{} { return map[string]interface{}{"history": steps, "violations": bad} })
+	r.Case(test+"/registry", true, nil)
+	if len(bad) == 0 {
+		return
+	}
+	if kf.Listed("C12", key) {
+		kf.Report("C12", key)
+		r.KnownFinding(key, strings.Join(bad, "; "))
+		return
+	}
+	t.Fatalf("%s\nhistory: %s\nregistry inconsistent: %s", what, strings.Join(steps, " | "), strings.Join(bad, "\n"))
+}
+
+func must(err error, invalid bool, what string) string {
+	if err != nil {
+		kit.Failf("%s: %v (invalid=%v)", what, err, invalid)
+	}
+	return what
+}
+
+// RegisterERC20(T) ; AddCoin(acoin, T) ; UpdateTokenPairERC20(T -> T') : acoin loses its index entry.
+func TestC12_Known_UpdateErc20DropsDenomIndex(t *testing.T) {
+	pinned(t, "TestC12_Known_UpdateErc20DropsDenomIndex", aggsim.KeyUpdateMultiDenom,
+		"update-ERC20-address on a pair with two denominations", func(w *aggsim.World) []string {
+			u := w.Users[0]
+			t1 := w.DeployToken(aggsim.KindPlain, u, "tka", "TKA", 6, 0)
+			t2 := w.DeployToken(aggsim.KindPlain, u, "tka", "TKA", 6, 0)
+			var h []string
+			err, inv := w.RegisterERC20(t1.Addr)
+			h = append(h, must(err, inv, "RegisterERC20 "+t1.Addr.Hex()))
+			err, inv = w.AddCoin(aggsim.CoinMetadata("acoin", true, "a coin"), t1.Addr.Hex())
+			h = append(h, must(err, inv, "AddCoin acoin to "+t1.Addr.Hex()))
+			err, inv = w.UpdateERC20(t1.Addr, t2.Addr)
+			h = append(h, must(err, inv, "UpdateTokenPairERC20 "+t1.Addr.Hex()+" -> "+t2.Addr.Hex()))
+			return h
+		})
+}
+
+// RegisterERC20(T1) ; RegisterERC20(T2) ; UpdateTokenPairERC20(T1 -> T2) : T2 belongs to two pairs.
+func TestC12_Known_UpdateErc20ToRegisteredContract(t *testing.T) {
+	pinned(t, "TestC12_Known_UpdateErc20ToRegisteredContract", aggsim.KeyUpdateToRegistered,
+		"update-ERC20-address to a contract that already belongs to another pair", func(w *aggsim.World) []string {
+			u := w.Users[0]
+			t1 := w.DeployToken(aggsim.KindPlain, u, "tka", "TKA", 6, 0)
+			t2 := w.DeployToken(aggsim.KindPlain, u, "tka", "TKA", 6, 0)
+			var h []string
+			err, inv := w.RegisterERC20(t1.Addr)
+			h = append(h, must(err, inv, "RegisterERC20 "+t1.Addr.Hex()))
+			err, inv = w.RegisterERC20(t2.Addr)
+			h = append(h, must(err, inv, "RegisterERC20 "+t2.Addr.Hex()))
+			err, _ = w.UpdateERC20(t1.Addr, t2.Addr)
+			h = append(h, fmt.Sprintf("UpdateTokenPairERC20 %s -> %s: err=%v", t1.Addr.Hex(), t2.Addr.Hex(), err))
+			return h
+		})
+}
+
+// RegisterCoin(ibc/…, name "ATOM channel-7F") twice, then AddCoin of the same coin to the first pair: the
+// duplicate test looks the metadata *name* up in the denomination index, which is keyed by the *base*.
+// On the pinned tree the second registration is nevertheless refused, by accident: verifyMetadata compares
+// the stored and the proposed denom units by pointer (types.EqualMetadata), so any coin whose metadata is
+// already in the bank store is refused. The test therefore passes silently today and turns into a
+// violation as soon as that comparison is repaired without repairing the duplicate test.
+func TestC12_Known_RegisterChecksNameNotBase(t *testing.T) {
+	pinned(t, "TestC12_Known_RegisterChecksNameNotBase", aggsim.KeyNameNotBase,
+		"register-coin / add-coin of a denomination that is already registered (metadata name differs from base)", func(w *aggsim.World) []string {
+			md := aggsim.CoinMetadata(aggsim.CoinDenoms[6], false, "ibc coin")
+			var h []string
+			err, inv := w.RegisterCoin(md)
+			h = append(h, must(err, inv, "RegisterCoin "+md.Base+" name "+md.Name))
+			first := w.Tokens[len(w.Tokens)-1].Addr
+			err, _ = w.RegisterCoin(md)
+			h = append(h, fmt.Sprintf("RegisterCoin again: err=%v", err))
+			err, _ = w.AddCoin(md, first.Hex())
+			h = append(h, fmt.Sprintf("AddCoin to the first pair: err=%v", err))
+			return h
+		})
 }
